@@ -236,7 +236,7 @@ int main(int argc, char **argv) {
       size_t n = 0;
       int pre = (int)((id / 10) % 4);
       if (pre == 1) { big[n++] = 4; big[n++] = 'K'; big[n++] = 0; }                      /* out-of-range report first */
-      if (pre == 2) { int g = 1 + (int)((id * 13) % 3000); for (int i = 0; i < g; i++) big[n++] = 0; }   /* NULs: nothing */
+      if (pre == 2) { int g = 1 + (int)((id * 13) % 300); for (int i = 0; i < g; i++) big[n++] = 0; }   /* NULs: nothing */
       if (pre == 3) { big[n++] = 1; for (int i = 0; i < 1 + (int)((id * 31) % 2047); i++) big[n++] = 'u'; big[n++] = 0; }  /* unused slot */
       big[n++] = dl[(id / 40) % 3]; big[n++] = "KDZ"[(id / 120) % 3];
       for (int i = 0; i < tl; i++) big[n++] = (i % 61 == 60) ? '\n' : 'a' + (i % 26);
